@@ -27,7 +27,8 @@ SCENARIO_TIMEOUT = 240
 MODES = ["good", "noise", "constant", "raise_recognised", "anti", "memorise"]
 PROBES = ["fallback_taken", "fallback_desc_false", "model_kept", "all_untrained", "some_untrained", "explicit_error",
           "memorise_worse_branch", "override_on", "enc_pm1", "enc_10", "enc_bool", "parquet", "workers>1",
-          "zero_scores_returned", "multi_file", "confidence_checked", "confidence_desc_false"]
+          "zero_scores_returned", "multi_file", "confidence_checked", "confidence_desc_false", "fold_aligned_feature",
+          "folds_disagree_on_best_feature"]
 RULE = (
     "For each sampled data set (planted strong feature, lower-is-better in half of them; 3 label encodings; text/Parquet) "
     "and fold count, EVERY assignment of {good, noise, constant, raise_recognised, anti, memorise} to the folds' estimators "
@@ -111,6 +112,17 @@ def scenarios(tier, batch_seed):
                         scn["seed"] = derive_seed(PROPERTY, batch_seed, idx)
                         idx += 1
                         yield scn
+                    # fold-aligned variant: one feature is informative only in the rows held out by fold j, so the
+                    # folds disagree about the best feature (and its direction) and model j records a much smaller
+                    # feat_pass than the others; every fold fails to learn -> the fallback must pick the best of them
+                    for j in range(folds):
+                        for mode in ("constant", "noise"):
+                            scn = clone(base)
+                            scn["modes"] = [mode] * folds
+                            scn["aligned"] = {"fold": j, "lower": bool((j + idx) % 2)}
+                            scn["seed"] = derive_seed(PROPERTY, batch_seed, idx)
+                            idx += 1
+                            yield scn
                 # sampled extras: override on, 5-6 folds, 2 folds
                 for _ in range(12 if tier == "quick" else 60):
                     folds = rng.choice([2, 2, 4, 5, 6])
@@ -139,12 +151,12 @@ def run_scenario(scn, workdir):
     }
     out = {
         "status": "ok",
-        "digest": digest([scn["data"], cfg, modes, scn["format"], scn.get("knobs"), scn.get("sched")]),
+        "digest": digest([scn["data"], cfg, modes, scn["format"], scn.get("knobs"), scn.get("sched"), scn.get("aligned")]),
         "nontrivial": any(m != "good" for m in modes),
         "probes": probes,
         "faults": {m: modes.count(m) for m in set(modes) if m != "good"},
         "knobs": scn.get("knobs") or {},
-        "sample": {"data": scn["data"], "cfg": cfg, "modes": modes, "format": scn["format"]},
+        "sample": {"data": scn["data"], "cfg": cfg, "modes": modes, "format": scn["format"], "aligned": scn.get("aligned")},
     }
 
     def viol(clause, msg, **sig):
@@ -171,6 +183,24 @@ def run_scenario(scn, workdir):
             if e["phase"] == "predict":
                 tags.update(e["tags"])
         held.append(sorted(tags))
+    al = scn.get("aligned")
+    if al is not None:
+        import random as _random
+
+        heldset = set(held[al["fold"] % len(held)])
+        r2 = _random.Random(f"aligned|{scn['seed']}")
+        for t in tables:
+            cols = t["columns"]
+            fa, fz, tagc = cols.index("feat0"), cols.index("feat1"), cols.index("tag")
+            others = [cols.index(c) for c in cols if c.startswith("feat") and c not in ("feat0", "feat1")]
+            for ri, row in enumerate(t["rows"]):
+                corr = t["meta"]["truth_correct"][ri]
+                v = r2.gauss(4.5 if (corr and row[tagc] in heldset) else 0.0, 1.0)
+                row[fa] = float(f"{(-v if al['lower'] else v):.6f}")
+                row[fz] = float(f"{r2.gauss(1.2 if corr else 0.0, 1.0):.6f}")
+                for o in others:
+                    row[o] = float(f"{r2.gauss(0.0, 1.0):.6f}")
+        probes["fold_aligned_feature"] = 1
     # ---- pass 2: faulty estimators
     estimators.REGISTRY.clear()
     est = estimators.RecordingLDA(tag_idx=ti, mode=list(modes), fold_tags=held, noise_seed=scn["seed"] % 1000)
@@ -217,6 +247,7 @@ def run_scenario(scn, workdir):
     if not cands:
         return uninf("no model recorded a best feature")
     best = max(c[0] for c in cands)
+    probes["folds_disagree_on_best_feature"] = int(len({(m.best_feat, m.desc) for m in models}) > 1)
     if is_feature is not None:
         probes["fallback_taken"] = 1
         owners = [m for m in models if m.best_feat == is_feature]
